@@ -30,13 +30,15 @@ fn dense_inv<T: Clone + Default + PartialEq>(c: &ColumnData<T>) -> bool {
                 s += 1;
             }
             // no presence bit beyond the value array: a stale bit there becomes a phantom value the next
-            // time the array grows over it
-            let mut t = values.len();
-            while t < present.len() * 64 {
-                if bit(present, t) {
-                    return false;
+            // time the array grows over it.  (present.len() == ceil(len/64) was checked above, so only the
+            // last word can carry such bits; shift instead of a 64-step loop.)
+            let r = values.len() % 64;
+            if r != 0 {
+                if let Some(last) = present.last() {
+                    if (*last >> r) != 0 {
+                        return false;
+                    }
                 }
-                t += 1;
             }
             let _ = base;
             n == *count
